@@ -45,6 +45,29 @@ MODEL_OP = {"reads": "read", "bytes": "read", "len": "read", "to_dict": "read", 
             "is_set": "raw", "which_one_of": "raw"}
 
 
+def eq_others(m):
+    """== against OTHER messages of the class, both ways (a fresh one, and ones with each field set)"""
+    cls = type(m)
+    others = [cls()]
+    for name in cls._betterproto.meta_by_field_name:
+        try:
+            v = getattr(cls(), name)
+        except AttributeError:
+            v = cls()._get_field_default(name)
+        try:
+            others.append(cls(**{name: v}))
+        except Exception:
+            pass
+    for o in others:
+        m == o
+        o == m
+        m != o
+
+
+OBSERVERS["eq_others"] = eq_others
+MODEL_OP["eq_others"] = "raw"
+
+
 def snapshot(m, schema, ci):
     return {"bytes": bytes(m), "presence": presence(m, schema, ci)}
 
